@@ -60,6 +60,16 @@ _STRUCTURAL_RULE_NAMES = frozenset(
     }
 )
 
+# A regex translation is only emitted when it is plain GBNF: character classes (with the escapes
+# GBNF knows), repetition operators, and one level of grouping/alternation inside parentheses.
+# Anything else (bare letters would be read as rule references, regex escapes such as \. or \-
+# are unknown to GBNF, unbalanced or empty groups) degrades to the permissive pattern.
+_GBNF_REPEAT = r"(?:[*+?]|\{[0-9]+(?:,[0-9]*)?\})?"
+_GBNF_CLASS = r"\[\^?(?:[^\]\\\n\r]|\\[\\\]\[tnr\"])+\]" + _GBNF_REPEAT
+_GBNF_SEQUENCE = rf"(?:{_GBNF_CLASS} ?)+"
+_GBNF_GROUP = rf"\( ?{_GBNF_SEQUENCE}(?:\| ?{_GBNF_SEQUENCE})*\)" + _GBNF_REPEAT
+_GBNF_SAFE_FRAGMENT = re.compile(rf"(?:(?:{_GBNF_CLASS}|{_GBNF_GROUP}) ?)+")
+
 # CONTRACT field parsing pattern: FIELD[name]::constraints
 _CONTRACT_FIELD_PATTERN = re.compile(r"^FIELD\[([^\]]+)\]::(.+)$")
 
@@ -472,14 +482,14 @@ class GBNFCompiler:
         if simple_char_class:
             char_class = simple_char_class.group(1)
             quantifier = simple_char_class.group(2) or "+"
-            return f"[{char_class}]{quantifier}"
+            result = f"[{char_class}]{quantifier}"
+        else:
+            # For more complex patterns, create a safe approximation
+            # Replace . with [^\\n], preserve quantifiers
+            result = pattern.replace(".", "[^\\n]")
 
-        # For more complex patterns, create a safe approximation
-        # Replace . with [^\\n], preserve quantifiers
-        result = pattern.replace(".", "[^\\n]")
-
-        # If result is empty or just quantifiers, use permissive
-        if not result or result in ["+", "*", "?"]:
+        # Whatever is not plain GBNF (see _GBNF_SAFE_FRAGMENT) would make the grammar unusable
+        if not _GBNF_SAFE_FRAGMENT.fullmatch(result):
             return "[^\\n]+"
 
         return result
